@@ -76,7 +76,7 @@ void check_grid(const Grid& gr, const Set& R, unsigned n, const std::string& tag
 SYMRT_HARNESS(C05_from_congruences) {
   unsigned n = symrt::param("n", 1), m = symrt::param("m", 1);
   long B = symrt::param("B", 2), Bb = symrt::param("Bb", B); int K = symrt::param("K", 3);
-  symrt::fresh_obligations(true); oracle::GRID_D = symrt::param("D", 60);
+  symrt::obligation_solver(2); oracle::GRID_D = symrt::param("D", 60);
   SymGrid G = grid_from_congruences("c", n, m, B, Bb, K);
   if (symrt::param("touch", 0) && symrt::flag("touch")) (void) G.gr->minimized_grid_generators();
   note_status("grid", *G.gr);
@@ -85,7 +85,7 @@ SYMRT_HARNESS(C05_from_congruences) {
 
 SYMRT_HARNESS(C05_from_generators) {
   unsigned n = symrt::param("n", 2), k = symrt::param("k", 1); long B = symrt::param("B", 1);
-  symrt::fresh_obligations(true); oracle::GRID_D = symrt::param("D", 60);
+  symrt::obligation_solver(2); oracle::GRID_D = symrt::param("D", 60);
   GenGrid G = grid_from_generators("g", n, k, B);
   if (symrt::param("touch", 0) && symrt::flag("touch")) (void) G.gr->minimized_congruences();
   note_status("grid", *G.gr);
@@ -96,7 +96,7 @@ SYMRT_HARNESS(C05_ops) {
   unsigned n = symrt::param("n", 1), m = symrt::param("m", 1);
   long B = symrt::param("B", 2), Bb = symrt::param("Bb", B); int K = symrt::param("K", 3);
   int op = symrt::param("op", 0);
-  symrt::fresh_obligations(true); oracle::GRID_D = symrt::param("D", 60);
+  symrt::obligation_solver(2); oracle::GRID_D = symrt::param("D", 60);
   SymGrid G = grid_from_congruences("c", n, m, B, Bb, K);
   Grid& gr = *G.gr; const CgSet& R = G.R;
   std::string tag = S("C05 op", op);
